@@ -14,7 +14,17 @@
    cipher families, with requests and channel opens in flight: echoed data
    intact, only key-exchange messages between a side's KEXINIT and NEWKEYS
    (hook log), session id constant, fresh K/H and fresh derived keys per
-   exchange, and the INDEPENDENT decoder must follow every key change."""
+   exchange, and the INDEPENDENT decoder must follow every key change.
+4. Code -> spec trace validation (specs/Transport/RekeyTrace.tla): sessions
+   in which both applications write from their own asyncio tasks at random
+   virtual times, with random segmentation and stalls of both byte streams
+   and byte limits from one byte to several packets, are RECORDED (one event
+   per spec action at its linearization point, with the endpoint's
+   _kex_complete/_kexinit_sent/_kex/_next_recv_encryption/deferred/
+   _rekey_bytes_sent afterwards) and TLC decides whether each recorded
+   execution is a behaviour of Rekey.tla, evaluating the invariants in every
+   state; corrupted copies of real traces and the flush-before-NEWKEYS
+   variant of the spec must be rejected (binding controls)."""
 
 import os
 
@@ -150,6 +160,109 @@ def busy_session(ctx, T, kw, rekey_c, rekey_s, what, sig, by_time=False):
     return nx
 
 
+TRACE_CONSTS = dict(ThreshC=0, ThreshS=0, MaxApp=100000, MaxKex=100000,
+                    FlushBeforeNewkeys='FALSE')
+DIAG = ['DiagOut', 'DiagKc', 'DiagKs', 'DiagKexing', 'DiagStaged', 'DiagNdef',
+        'DiagCnt', 'DiagErr']
+
+
+def trace_validation(ctx, rekey, quick):
+    """Part 4: recorded executions against Rekey.tla."""
+    import copy
+    n = 90 if quick else 2400
+    kws = [None, dict(encryption_algs=['aes128-ctr'],
+                      mac_algs=['hmac-sha2-256']),
+           dict(encryption_algs=['3des-cbc'], mac_algs=['hmac-sha1'])]
+    modes = ['mixed', 'whole', 'tiny', 'mixed half', 'stall whole',
+             'tiny half']
+    recs = []
+    for i in range(n):
+        seed = ctx.seed * 100003 + i
+        thc, ths = [(1, 0), (0, 1), (1, 1), (2, 1), (2, 2), (3, 0), (1, 3),
+                    (3, 2), (4, 4)][i % 9]
+        mode = modes[(i // 9) % len(modes)]
+        kw = kws[(i // 54) % len(kws)]
+        r = rekey.record_natural(seed, thc, ths, n_c=4 + i % 5,
+                                 n_s=3 + (i // 5) % 5, mode=mode, kw=kw)
+        r['sig'] = {'module': 'RekeyTrace', 'limits': [thc, ths],
+                    'mode': mode, 'algs': str(kw)}
+        r['args'] = dict(seed=seed, th_c=thc, th_s=ths, n_c=4 + i % 5,
+                         n_s=3 + (i // 5) % 5, mode=mode, kw=kw)
+        recs.append(r)
+        ctx.count(('trace', thc, ths, mode, str(kw)),
+                  nontrivial=r['nkex'] >= 2)
+        if r['l1']:
+            ctx.violation(dict(r['sig'], clauses=sorted(
+                {c.split(':')[0] for c in r['l1']})),
+                          '; '.join(r['l1'][:3]),
+                          replay={'kind': 'natural', **r['args']})
+        if r['loop_exceptions']:
+            ctx.divergence(f'natural session {r["args"]}: loop exception '
+                           f'{r["loop_exceptions"][0]}')
+    total_ev = 0
+    for b in range(0, len(recs), 300):
+        batch = recs[b:b + 300]
+        res, verdicts = tlc.validate_traces(
+            SPEC, 'RekeyTrace', [r['trace'] for r in batch],
+            f'c11_tr_{b}', constants=TRACE_CONSTS, diag=DIAG)
+        ctx.add_tlc(f'RekeyTrace batch {b}', res)
+        if res.violation:
+            # an invariant of Rekey.tla fails in a state bound to a recorded
+            # execution
+            ctx.violation({'module': 'RekeyTrace', 'invariant': res.violation},
+                          f'invariant {res.violation} fails on a recorded '
+                          f'execution: ' + res.output[-1500:],
+                          replay={'kind': 'natural-batch',
+                                  'args': [r['args'] for r in batch]})
+            continue
+        if res.error:
+            raise MachineryError(f'RekeyTrace: {res.error}\n' +
+                                 res.output[-3000:])
+        for i, v in sorted(verdicts.items()):
+            total_ev += v['matched']
+            if not v['accepted']:
+                ctx.divergence(f'recorded execution {batch[i]["args"]} is '
+                               f'not a behaviour of Rekey.tla: '
+                               f'{v["diagnosis"]}')
+    ctx.coverage['recorded_traces_validated_by_tlc'] = len(recs)
+    ctx.coverage['recorded_events_matched'] = total_ev
+    # ---- binding controls: corrupted copies must be rejected ----
+    good = [r['trace'] for r in recs if r['nkex'] >= 2 and
+            any(e['ndef'] > 0 for e in r['trace']['ev'])][:4]
+    ctx.require(len(good) == 4, 'no recorded trace with deferred packets')
+    bad = []
+    t = copy.deepcopy(good[0])
+    i = [k for k, e in enumerate(t['ev']) if e['ndef'] > 0][0]
+    t['ev'][i]['ndef'] += 1
+    bad.append(('field ndef corrupted', t))
+    t = copy.deepcopy(good[1])
+    i = [k for k, e in enumerate(t['ev']) if e['t'] == 'NEWKEYS'][0]
+    del t['ev'][i]
+    bad.append(('NEWKEYS receipt removed', t))
+    t = copy.deepcopy(good[2])
+    t['thc'] += t['asz']
+    t['ths'] += t['asz']
+    bad.append(('limits shifted by one packet', t))
+    t = copy.deepcopy(good[3])
+    i = [k for k, e in enumerate(t['ev']) if e['e'] == 'app' and
+         e['out'] == ['APP']][0]
+    t['ev'][i]['cnt'] += 1
+    bad.append(('counter off by one', t))
+    res, verdicts = tlc.validate_traces(SPEC, 'RekeyTrace',
+                                        [b[1] for b in bad], 'c11_tr_neg',
+                                        constants=TRACE_CONSTS)
+    for i, (what, _) in enumerate(bad):
+        ctx.require(i in verdicts and not verdicts[i]['accepted'],
+                    f'binding control "{what}" was accepted by RekeyTrace')
+    res, verdicts = tlc.validate_traces(
+        SPEC, 'RekeyTrace', good, 'c11_tr_sens',
+        constants=dict(TRACE_CONSTS, FlushBeforeNewkeys='TRUE'),
+        invariants=())
+    ctx.require(verdicts and not any(v['accepted'] for v in verdicts.values()),
+                'flush-before-NEWKEYS variant accepted a recorded trace')
+    ctx.traces_validated(len(recs))
+
+
 def main(ctx):
     from harness.drivers import rekey, transport as T
     quick = ctx.tier == 'quick'
@@ -217,6 +330,8 @@ def main(ctx):
             busy_session(ctx, T, kw, rc, rs, name,
                          {'module': 'RekeyLive', 'algs': str(kw),
                           'limits': [rc, rs]})
+    # ---- 4. recorded executions against the spec ----
+    trace_validation(ctx, rekey, quick)
     ctx.assumptions += [
         'replay thresholds are 0 or 1 application packet (rekey_bytes=1); '
         'larger byte limits are covered by the busy-session sweep',
